@@ -267,6 +267,52 @@ func runC01(c *Ctx) {
 			c.Sample(map[string]string{"mutation": m.Name, "case": trunc(sx, 800), "go": trunc(res, 200)})
 		}
 	}
+	// third sentence, sibling shape: two tokens attenuated from the same parent (of depth
+	// 0..8) must both verify, and so must the parent afterwards
+	for depth := 0; depth <= 8; depth++ {
+		g := newScenGen(r, 0)
+		spec := TokenSpec{}
+		for j := 0; j <= depth; j++ {
+			spec.Blocks = append(spec.Blocks, g.block(1+r.Intn(2), 0, 0))
+		}
+		for _, viaWire := range []bool{false, true} {
+			parent, err := buildTokenSpec(spec, r.Fork())
+			if err != nil {
+				continue
+			}
+			if viaWire {
+				d, _ := parent.Serialize()
+				if parent, err = biscuit.Unmarshal(d); err != nil {
+					continue
+				}
+			}
+			rd := &detRand{r.Fork()}
+			var kids []*biscuit.Biscuit
+			for k := 0; k < 3; k++ {
+				bb := parent.CreateBlock()
+				fillBlockBuilder(bb, g.block(1, 0, 0))
+				if kid, err := parent.Append(rd, bb.Build()); err == nil {
+					kids = append(kids, kid)
+				}
+			}
+			for k, t := range append([]*biscuit.Biscuit{parent}, kids...) {
+				d, err := t.Serialize()
+				if err != nil {
+					continue
+				}
+				sx := chainCaseSx(d, pub)
+				res := execCase("CHAIN", sx)
+				c.Case("CHAIN", c.NewID("sibling"), sx, res)
+				c.Count("sibling:" + strings.SplitN(res, " ", 3)[0])
+				if !strings.HasPrefix(res, "accept") {
+					c.Violate("C01/built-token:sibling", fmt.Sprintf("token %d of a family of three tokens attenuated from one parent of depth %d is rejected: %s", k, depth, res), map[string]interface{}{"verb": "CHAIN", "case": sx, "go": res, "depth": depth})
+				}
+				if _, err := t.AuthorizerFor(biscuit.WithSingularRootPublicKey(pub)); err != nil {
+					c.Violate("C01/built-token:sibling", fmt.Sprintf("in-memory token %d of a family attenuated from one parent of depth %d does not verify: %v", k, depth, err), map[string]interface{}{"depth": depth, "index": k})
+				}
+			}
+		}
+	}
 	// third sentence: every library-built token verifies under the matching root key
 	// and under no other
 	for i := 0; i < n/10; i++ {
